@@ -65,7 +65,7 @@ func hdRunProperty(t *testing.T, p hdProp) {
 		if nt {
 			sink.count("nontrivial")
 		}
-		sink.add(hdCaseTerm(c, trace), c, nt, trace)
+		sink.add(hdCaseTerm(c, trace, run), c, nt, trace)
 	}
 	if p.extra != nil && env.replay == "" {
 		p.extra(t, env, sink)
@@ -78,11 +78,49 @@ func hdToSession(c int) *hdRecipient {
 	return &hdRecipient{T: "session", Id: &hdIdRef{T: "pub", C: c}}
 }
 
+// hdHeldJoinCases: the forced schedule "joincut" (the connection is cut while the backend's reply to its room join is
+// outstanding; the session is resumed on a new connection before the backend replies; then the backend replies and the
+// handler of the cut connection finishes), followed by what must still be true afterwards: the session receives what
+// is addressed to it, survives the expiry window with its connection, and can be cut and resumed again.
+func hdHeldJoinCases(first int) []*hdCase {
+	pre := func() []hdOp {
+		return []hdOp{{K: "connect", C: 1}, {K: "connect", C: 2}, {K: "hello", C: 1, B: 0, U: 1}, {K: "hello", C: 2, B: 0, U: 2}, hdJoinOp(1, 1, 1)}
+	}
+	after := func(c int) []hdOp {
+		return []hdOp{{K: "msg", C: 1, To: hdToSession(c), Tag: 41}, {K: "msg", C: 1, To: &hdRecipient{T: "room"}, Tag: 42},
+			{K: "tick", O: 15}, {K: "tick", O: 40},
+			{K: "msg", C: 1, To: hdToSession(c), Tag: 43}, {K: "msg", C: c, To: &hdRecipient{T: "room"}, Tag: 44},
+			{K: "drop", C: c}, {K: "msg", C: 1, To: hdToSession(c), Tag: 45}, {K: "tick", O: 15},
+			{K: "connect", C: c + 1}, {K: "hello", C: c + 1, Ht: "resume", Id: &hdIdRef{T: "priv", C: c}},
+			{K: "msg", C: 1, To: hdToSession(c + 1), Tag: 46}, {K: "tick", O: 40}, {K: "msg", C: 1, To: hdToSession(c + 1), Tag: 47}}
+	}
+	mid := []hdOp{{K: "msg", C: 1, To: hdToSession(2), Tag: 31}, {K: "msg", C: 1, To: &hdRecipient{T: "user", U: 2}, Tag: 32}, {K: "ctl", C: 1, To: hdToSession(2), Tag: 33}}
+	var out []*hdCase
+	add := func(ops []hdOp) {
+		out = append(out, &hdCase{Id: first + len(out), Mode: 1, Ops: ops})
+	}
+	// first join of the session
+	add(append(append(pre(), hdOp{K: "joincut", C: 2, C2: 3, R: 1, RS: 2, RawRS: true}), after(3)...))
+	// with messages for the session while the join is outstanding (queued, delivered by the resume, in order, once)
+	add(append(append(pre(), hdOp{K: "joincut", C: 2, C2: 3, R: 1, RS: 2, RawRS: true, Mid: mid}), after(3)...))
+	// a change of rooms, with permissions in the reply
+	add(append(append(pre(), hdJoinOp(2, 2, 2), hdOp{K: "joincut", C: 2, C2: 3, R: 1, RS: 2, RawRS: true, HasP: true, Perm: []int{0, 4}, Mid: mid[:1]}), after(3)...))
+	// the backend refuses the join: the session stays where it was, with its new connection
+	add(append(append(pre(), hdJoinOp(2, 2, 2), hdOp{K: "joincut", C: 2, C2: 3, R: 1, RS: 2, RawRS: true, Err: "not_invited"}), after(3)...))
+	// twice in a row, then the second connection is taken over by a third
+	add(append(append(pre(), hdOp{K: "joincut", C: 2, C2: 3, R: 1, RS: 2, RawRS: true}, hdOp{K: "joincut", C: 3, C2: 4, R: 2, RS: 2, RawRS: true, Mid: []hdOp{{K: "msg", C: 1, To: hdToSession(3), Tag: 34}}},
+		hdOp{K: "connect", C: 5}, hdOp{K: "hello", C: 5, Ht: "resume", Id: &hdIdRef{T: "priv", C: 4}}), after(5)...))
+	// joins that do not ask the backend (already in the room; leaving): the same ops one after the other
+	add(append(append(pre(), hdJoinOp(2, 1, 2), hdOp{K: "joincut", C: 2, C2: 3, R: 1, RS: 2, RawRS: true}), after(3)...))
+	return out
+}
+
 // ---- C01 ----
 func TestVerifC01(t *testing.T) {
 	hdRunProperty(t, hdProp{id: "C01", quick: 90, thorough: 900, minOps: 10,
 		opts: func(i int) hdGenOpts { return hdGenOpts{api: i%4 == 0, internal: i%2 == 0, prehello: true, v2: i%3 != 2} },
 		nontrivial: func(c *hdCase, tr string) bool { return hdHas(tr, "SHello") && hdHas(tr, "SError") },
+		extra:      hdStressResume,
 		directed: func() []*hdCase {
 			// every request type before hello, then a failing and a succeeding hello of each kind
 			pre := []hdOp{{K: "connect", C: 1, Addr: 1},
@@ -440,8 +478,9 @@ func TestVerifC06(t *testing.T) {
 				hdOp{K: "hello", C: 2, Ht: "resume", Id: &hdIdRef{T: "pub", C: 1}},
 				hdOp{K: "connect", C: 3, Addr: 8}, hdOp{K: "hello", C: 3, Ht: "resume", Id: &hdIdRef{T: "priv", C: 1}},
 				hdOp{K: "hello", C: 2, Ht: "resume", Id: &hdIdRef{T: "priv", C: 1}})
-			return []*hdCase{{Id: 0, Mode: 1, Ops: ops}, {Id: 1, Mode: 1, Ops: gone}, {Id: 2, Mode: 1, Ops: chat}, {Id: 3, Mode: 1, Ops: lost},
-				{Id: 4, Mode: 1, Ops: dis}, {Id: 5, Mode: 1, Ops: kick}, {Id: 6, Mode: 1, Ops: w(false)}, {Id: 7, Mode: 1, Ops: w(true)}, {Id: 8, Mode: 1, Ops: thr}}
+			return append([]*hdCase{{Id: 0, Mode: 1, Ops: ops}, {Id: 1, Mode: 1, Ops: gone}, {Id: 2, Mode: 1, Ops: chat}, {Id: 3, Mode: 1, Ops: lost},
+				{Id: 4, Mode: 1, Ops: dis}, {Id: 5, Mode: 1, Ops: kick}, {Id: 6, Mode: 1, Ops: w(false)}, {Id: 7, Mode: 1, Ops: w(true)}, {Id: 8, Mode: 1, Ops: thr}},
+				hdHeldJoinCases(9)...)
 		}})
 }
 
@@ -486,7 +525,7 @@ func TestVerifC07(t *testing.T) {
 			} {
 				out = append(out, &hdCase{Id: i, Mode: 1, Ops: ops})
 			}
-			return out
+			return append(out, hdHeldJoinCases(30)...)
 		}})
 }
 
